@@ -9,6 +9,18 @@ COMMON_NOTE = ("Trusted: Coq 8.16.1 kernel; extraction with ExtrOcamlBasic only 
                "the radix-tree library, flock(2), goroutine scheduling. See DESIGN.md section 5.")
 
 CHECKS = {
+ 'C18': dict(text="Partial. Proved (Coq) for the transition system of Notify.v - Wait/Set/Close cut at every channel operation and "
+                  "atomic access, any number of threads, every interleaving, by an invariant preserved by every step: token discipline "
+                  "(no send on a closed or full barrier, no double close), no lost wake-up (a waiter parked on an open channel has an offset "
+                  "NextOffset has not passed unless the holder is about to close that channel), hence: once a Set has finished and NextOffset "
+                  "passed the offset the waiter is enabled and returns; it is woken only by a step of Set or Close; immediate return below "
+                  "NextOffset; a wait reaching the barrier after Close fails. What a woken ConsumeBlocking returns is Consume at that moment "
+                  "(C03). The model is tied to /repo by stepping real goroutines through pause points added to pkg/notify (tag verif): ~3000 "
+                  "schedules (60000 thorough) of 1-3 waiters, 0-2 Set, 0-2 Close with cancellations; the status of every thread afterwards "
+                  "must equal the model's.",
+             ref='6/C18', technique='Coq proof (inductive invariant of a small-step model, all interleavings) + pause-point schedules on the real notifier',
+             note="Not expressible in the model: atomicity of a Go channel operation and of atomic.Int64, and scheduler fairness (liveness "
+                  "is stated as enabledness). " + COMMON_NOTE),
  'C19': dict(text="Partial. Proved (Coq) for the lock-table model of Flock.v, over every sequence of Open (both modes, succeeding or "
                   "failing), Close, Publish, Delete on any number of handles: an exclusive lock excludes all other handles, a read-write "
                   "Open needs a free directory, a read-only Open only the absence of a writer, a failed Open leaves the table unchanged, "
